@@ -69,7 +69,10 @@ pub fn explore_unit(name: impl Into<String>, desc: impl Into<String>, bounds: Bo
     let run: RunFn = Arc::new(move |prefix: &[u32], _record: bool| {
         CURRENT_EXEC.with(|c| *c.borrow_mut() = Some((n2.clone(), prefix.to_vec())));
         let f = f.clone();
-        run_exec(prefix, &cfg, move |cx| f(cx))
+        crate::report::enter_exec(&n2, prefix);
+        let r = run_exec(prefix, &cfg, move |cx| f(cx));
+        crate::report::leave_exec();
+        r
     });
     Unit::explore(name, desc, bounds, run)
 }
